@@ -247,7 +247,7 @@ func lengthsAround(w int) []int {
 
 func c03(ctx *run.Ctx) {
 	census := mon.NewCensus()
-	nrand := ctx.Pick(2, 8)
+	nrand := ctx.Pick(3, 8)
 	// --- indicators, equal-length inputs ---
 	for _, ind := range reg.Sorted() {
 		ind := ind
@@ -300,7 +300,7 @@ func c03(ctx *run.Ctx) {
 			small = append(small, b)
 		}
 	}
-	all := append(append([]namedStrat(nil), base...), compoundStrats(ctx, small, ctx.Pick(6, 30))...)
+	all := append(append([]namedStrat(nil), base...), compoundStrats(ctx, small, ctx.Pick(10, 30))...)
 	for si, ns := range all {
 		ns := ns
 		for _, n := range lengthsAround(ns.Warm) {
